@@ -431,6 +431,8 @@ def run(ctx):
     ctx.check_proof("IterSolve_proofs")        # the same invariants for every iteration budget
     from vlib import resulthistory
     nrh = resulthistory.replay(ctx, ["solve:exact", "solve:cg", "solve:bicgstab", "solve:gmres"], "solve")
+    from vlib import layoutinv
+    nrh += layoutinv.replay(ctx, ["solve:exact", "solve:cg", "solve:bicgstab", "solve:gmres"], "solve")
     for name, c2, inv in (("Unswap", dict(Unswap=RawTla('[m \\in {"cg", "bicgstab", "gmres", "exactsolve", "custom_exactsolve", "broyden1"} |-> m # "gmres"]')), "RetPlain"),
                           ("ReturnPassed", dict(ReturnPassed=False), "SilentPassed"), ("WarnIffNot", dict(WarnIffNot=False), "WarnedIffNotConverged")):
         c = dict(base)
